@@ -717,6 +717,14 @@ package rewriter
 //@   ensures t == funcType(f)
 //@ extern (*types.Signature).TypeParams(sg) (l)
 //@   ensures l == sigTParams(sg)
+//@ extern (*types.Signature).Params(sg) (t)
+//@   ensures t == sigParams(sg)
+//@ extern (*types.Signature).Results(sg) (t)
+//@   ensures t == sigResults(sg)
+//@ extern (*types.Signature).Variadic(sg) (v)
+//@   ensures v == sigVariadic(sg)
+//@ extern (*types.Signature).Recv(sg) (v)
+//@   ensures v == sigRecv(sg)
 //@ extern (*types.TypeParamList).Len(l) (n)
 //@   ensures n == tplLen(l) && n >= 0
 //@ extern types.Identical(a, b) (r)
